@@ -143,6 +143,12 @@ class BlockAssembler:
         roi, squeeze_axis = self._norm_roi(roi)
         assert len(roi) == self.ndim
 
+        # blocks are pasted into the contiguous window, steps are applied at the end
+        steps = tuple(s.step for s in roi)
+        if any(step is not None and step < 1 for step in steps):
+            raise ValueError("Only positive slice steps are supported")
+        roi = tuple(slice(s.start, s.stop) for s in roi)
+
         yx_roi = roi[self._axis : self._axis + 2]
         everything = tuple(slice(None) for _ in range(self.ndim))
 
@@ -154,6 +160,9 @@ class BlockAssembler:
             s_roi = self.with_yx(roi, s_roi)
             d_roi = self.with_yx(everything, d_roi)
             np.copyto(xx[d_roi], block[s_roi], casting=casting)
+
+        if any(step not in (None, 1) for step in steps):
+            xx = xx[tuple(slice(None, None, step) for step in steps)]
 
         if squeeze_axis:
             xx = np.squeeze(xx, axis=squeeze_axis)
